@@ -44,7 +44,8 @@ ATTACKS = ["bitflip", "drop", "dup", "swap", "strip13", "lower_version",
            "inject_ccs", "flip_encrypted", "fallback"]
 PROBES = ATTACKS + ["both_complete_same", "sentinel_seen",
                     "client_aborted_on_sentinel", "fallback_refused",
-                    "resumption", "hrr", "tls13_base", "tls12_base"]
+                    "resumption", "hrr", "tls13_base", "tls12_base",
+                    "fallback_with_session"]
 COMPONENTS_REAL = ["tlslite handshakes (transcript hashing, Finished / "
                    "binder checks, downgrade sentinel, FALLBACK_SCSV)"]
 COMPONENTS_STUB = ["socket", "os.urandom", "clock", "on-path attacker"]
@@ -231,6 +232,8 @@ def run(job, streams=None):
     base_s = views.view(pair0.s.conn)
     bver = tuple(base_c["version"])
     probes["tls13_base" if bver == (3, 4) else "tls12_base"] = 1
+    if sc.get("hrr"):
+        probes["hrr"] = 1
     lay = {d: list(m0.seen[d]) for d in ("c2s", "s2c")}
     # plaintext prefix of each direction
     plain = {}
@@ -400,11 +403,32 @@ def run_fallback(job, ch, seed, sc, v, viol, probes, ctx):
     if sc2["flavour"] == "psk":
         sc2["flavour"] = "cert"
     sc2.pop("resume", None)
-    ctx[0] = "[attack=fallback to %s scenario=%s]" % (
-        fv, json.dumps(sc2, sort_keys=True))
-    sim, pair, m, oc, os_, st, tc, ts = execute(seed, sc2, ch, None)
+    # the retry may come with a session cached from an earlier connection at
+    # the lower version (browsers do exactly that)
+    session = None
+    cache = None
+    with_session = ch.draw(2, "a.fsess") == 1
+    if with_session:
+        from tlslite.api import SessionCache
+        cache = SessionCache()
+        sc1 = json.loads(json.dumps(sc2))
+        sc1["cset"]["sendFallbackSCSV"] = False
+        sc1["sset"]["maxVersion"] = list(fv)
+        if tuple(sc1["sset"]["minVersion"]) > fv:
+            sc1["sset"]["minVersion"] = list(fv)
+        simp, pairp, mp, ocp, osp, stp, _, _ = execute(
+            seed + 1, sc1, kernel.Chooser(streams={}), None, cache=cache,
+            tag="0")
+        if ocp.kind == "ok" and osp.kind == "ok":
+            session = pairp.c.conn.session
+            probes["fallback_with_session"] = 1
+    ctx[0] = "[attack=fallback to %s with_session=%s scenario=%s]" % (
+        fv, session is not None, json.dumps(sc2, sort_keys=True))
+    sim, pair, m, oc, os_, st, tc, ts = execute(seed, sc2, ch, None,
+                                                session=session, cache=cache)
     if os_.kind == "ok" or oc.kind == "ok":
-        v("fallback_accepted", "%s" % (fv,),
+        v("fallback_accepted", "%s|%s" % (fv, "session" if session
+                                          is not None else "nosession"),
           "fallback handshake with FALLBACK_SCSV completed (client %s, "
           "server %s) although the server supports %s" %
           (oc.kind, os_.kind, smax))
